@@ -395,6 +395,16 @@ static void run_copy(Choices &c, Ctx &ctx)
 {
 	json_object *src = nullptr;
 	std::string origin;
+	std::vector<char *> borrowed_keys; // released as soon as the source object is gone
+	struct FreeKeys {
+		std::vector<char *> &v;
+		~FreeKeys()
+		{
+			for (char *k : v)
+				free(k);
+			v.clear();
+		}
+	} free_keys{borrowed_keys};
 	switch (c.pick({5, 3, 2}))
 	{
 	case 0: {
@@ -443,6 +453,18 @@ static void run_copy(Choices &c, Ctx &ctx)
 			json_object_object_add(src, ("m" + str(i)).c_str(), x);
 		}
 		json_object_object_add(src, "ds", json_object_new_double_s(2.5, "2.500"));
+		// members whose names live in caller-managed memory (JSON_C_OBJECT_ADD_CONSTANT_KEY: the caller keeps them alive
+		// as long as *that* object lives - not its copies)
+		for (size_t i = 0, nk = c.pickn(4); i < nk; i++)
+		{
+			std::string nm = "borrowed key " + str(i) + std::string(c.pickn(40), 'k');
+			char *kb = (char *)malloc(nm.size() + 1);
+			memcpy(kb, nm.c_str(), nm.size() + 1);
+			borrowed_keys.push_back(kb);
+			json_object_object_add_ex(src, kb, json_object_new_int((int)i), JSON_C_OBJECT_ADD_CONSTANT_KEY | JSON_C_OBJECT_ADD_KEY_IS_NEW);
+		}
+		if (!borrowed_keys.empty())
+			ctx.label("src_borrowed_keys");
 		origin = "object with user-data serialisers";
 		ctx.label("src_custom_serializer");
 		break;
@@ -502,6 +524,16 @@ static void run_copy(Choices &c, Ctx &ctx)
 		if (text_of(other, flags[i]) != other_text[i])
 			ctx.fail("copy-not-independent", "mutating one tree changed the other's serialisation under flags " + str(flags[i]));
 	json_object_put(victim);
+	if (victim == src)
+	{
+		// the source is gone: so may be the memory it borrowed its member names from
+		for (char *k : borrowed_keys)
+		{
+			memset(k, 'Z', strlen(k));
+			free(k);
+		}
+		borrowed_keys.clear();
+	}
 	after = dump(other); // ASan: any shared storage would be a use-after-free here
 	if (!same_val(before, after, why, DBL_BITS))
 		ctx.fail("copy-not-independent", "destroying one tree changed the other: " + why);
